@@ -56,7 +56,12 @@ D1More == {
 RootsOnly == { B("Power", x, CSE0(KI(2))), B("Power", N("Sum", << x, y >>), CSE0(y)),
                B("Power", x, IfE(Cmp(y, "<", KI(0)), KI(2), KI(3))), B("Power", CSE0(y), x),
                B("Quotient", x, CSE0(y)), B("Quotient", CSE0(y), x),
-               N("Product", << x, Fn("log", KI(3)) >>), Fn("log", KI(1)), Fn("log", half) }
+               N("Product", << x, Fn("log", KI(3)) >>), Fn("log", KI(1)), Fn("log", half),
+               \* table functions called with an arity the table does not know: must be refused
+               MCall("log", << x, y >>), MCall("log", << x, KI(2) >>), MCall("log", << KI(2), x >>),
+               MCall("exp", << x, y >>), MCall("cos", << x, x >>), MCall("tanh", << y, x >>),
+               MCall("fabs", << x, y >>), MCall("copysign", << x >>), MCall("copysign", << x, y, y >>),
+               N("Sum", << x, MCall("log", << x, KI(2) >>) >>) }
 D1 == IF Quick THEN D1Q ELSE D1Q \cup D1More
 
 HoleT(ty) == [t |-> "Hole", ty |-> ty]
